@@ -1,6 +1,7 @@
 package rules
 
 import (
+	"fmt"
 	"go/token"
 	"go/types"
 	"strings"
@@ -33,6 +34,16 @@ func (a anchors) obj(pkg, name string) *types.Func {
 	o, err := a.p.FuncObj(pkg, name)
 	if err != nil {
 		panic(err)
+	}
+	return o
+}
+
+// objOpt resolves a helper that the rule does not depend on: nil when it is
+// absent (for instance merged into its only caller).
+func (a anchors) objOpt(pkg, name string) *types.Func {
+	o, err := a.p.FuncObj(pkg, name)
+	if err != nil {
+		return nil
 	}
 	return o
 }
@@ -192,12 +203,22 @@ func provablyNonNil(v ssa.Value, b *ssa.BasicBlock, depth int) bool {
 	case *ssa.Alloc:
 		return true
 	case *ssa.Phi:
-		for _, e := range x.Edges {
-			if !provablyNonNil(e, b, depth+1) {
-				return false
+		all := len(x.Edges) > 0
+		for i, e := range x.Edges {
+			// an operand is judged where it flows in: at the end of the predecessor
+			eb := b
+			if i < len(x.Block().Preds) {
+				eb = x.Block().Preds[i]
+			}
+			if !provablyNonNil(e, eb, depth+1) {
+				all = false
+				break
 			}
 		}
-		return len(x.Edges) > 0
+		if all {
+			return true
+		}
+		// otherwise a dominating test of the merged value itself decides
 	case *ssa.Global:
 		return false
 	case *ssa.UnOp:
@@ -220,6 +241,33 @@ func provablyNonNil(v ssa.Value, b *ssa.BasicBlock, depth int) bool {
 		}
 		if sameValue(an.Unwrap(x), v) || an.Resolve(an.Unwrap(x)) == v {
 			return true
+		}
+	}
+	return false
+}
+
+// provablyNonNilCase is provablyNonNil for one return case: the value is judged
+// where the case was split, and the guards collected along the case count.
+func provablyNonNilCase(v ssa.Value, rc an.RetCase) bool {
+	if v == nil {
+		return false
+	}
+	if provablyNonNil(v, rc.At, 0) || provablyNonNil(v, rc.Ret.Block(), 0) {
+		return true
+	}
+	uv := an.Unwrap(v)
+	for _, g := range rc.Guards {
+		x, trueNonNil, ok := nilTestOf(g.Cond)
+		if !ok || g.True != trueNonNil {
+			continue
+		}
+		if sameValue(an.Unwrap(x), uv) || an.Resolve(an.Unwrap(x)) == uv {
+			return true
+		}
+	}
+	if call, ok := uv.(*ssa.Call); ok {
+		if arg, ok := errsWrapLike(call.Common()); ok {
+			return provablyNonNilCase(arg, rc)
 		}
 	}
 	return false
@@ -385,4 +433,253 @@ func guardedByCall(b *ssa.BasicBlock, method *types.Func, field *types.Var, want
 		}
 	}
 	return nil, false
+}
+
+// signalErrAfterSignal: e is sig.Err() evaluated in a select case that received from the same signal's
+// Signal() channel (a set Signal has its error; termination causes are non-nil by C05.R6).
+func signalErrAfterSignal(e ssa.Value) bool {
+	call, ok := e.(*ssa.Call)
+	if !ok {
+		return false
+	}
+	obj := an.CalleeObj(call.Common())
+	if obj == nil || obj.Name() != "Err" || obj.Pkg() == nil || obj.Pkg().Name() != "drpcsignal" {
+		return false
+	}
+	f := recvField(call.Common())
+	if f == nil || f.Name() != "term" {
+		return false
+	}
+	for _, sc := range an.SelectGuards(call.Block()) {
+		st := sc.State()
+		if st.Dir != types.RecvOnly {
+			continue
+		}
+		if d, ok := st.Chan.(*ssa.Call); ok {
+			if o := an.CalleeObj(d.Common()); o != nil && o.Name() == "Signal" && recvField(d.Common()) == f {
+				return true
+			}
+		}
+	}
+	return false
+}
+
+func init() {
+	an.NonNilHook = func(v ssa.Value) bool { return ctxErrAfterDone(v, nil) || signalErrAfterSignal(v) }
+	an.ErrCtor = func(c *ssa.CallCommon) (bool, ssa.Value) {
+		if errsNewLike(c) {
+			return true, nil
+		}
+		if arg, ok := errsWrapLike(c); ok {
+			return false, arg
+		}
+		return false, nil
+	}
+}
+
+// nilTrack keeps, inside a Flow state, what a path knows about error values
+// being nil: tags "N:<key>" / "Z:<key>". Loads of one local variable (a named
+// result spilled because of a defer, also when seen from the deferred closure)
+// share a key, and the results of an inlined helper are keyed by the call.
+type nilTrack struct {
+	nonNil func(v ssa.Value, at ssa.Instruction) bool // rule-specific knowledge (ctx.Err() after Done, ...)
+}
+
+func (n nilTrack) key(v ssa.Value) string {
+	v = an.Unwrap(v)
+	if v == nil {
+		return ""
+	}
+	if u, ok := v.(*ssa.UnOp); ok && u.Op == token.MUL {
+		switch x := u.X.(type) {
+		case *ssa.Alloc:
+			return "m:" + x.Name() + "@" + fmt.Sprint(x.Parent())
+		case *ssa.FreeVar:
+			if par := x.Parent().Parent(); par != nil {
+				key := ""
+				an.Instrs(par, func(in ssa.Instruction) {
+					if mc, ok := in.(*ssa.MakeClosure); ok && mc.Fn == ssa.Value(x.Parent()) {
+						for i, fv := range x.Parent().FreeVars {
+							if fv == x && i < len(mc.Bindings) {
+								if al, ok := mc.Bindings[i].(*ssa.Alloc); ok {
+									key = "m:" + al.Name() + "@" + fmt.Sprint(al.Parent())
+								}
+							}
+						}
+					}
+				})
+				if key != "" {
+					return key
+				}
+			}
+		}
+	}
+	return "v:" + v.Name() + "@" + fmt.Sprint(v.Parent())
+}
+
+func (n nilTrack) set(st, key string, nonNil bool) string {
+	st = delTag(delTag(st, "N:"+key), "Z:"+key)
+	if nonNil {
+		return addTag(st, "N:"+key)
+	}
+	return addTag(st, "Z:"+key)
+}
+
+// status reports what the path knows about v at instruction at.
+func (n nilTrack) status(st string, v ssa.Value, at ssa.Instruction) (known, nonNil bool) {
+	if v == nil || an.IsNilConst(v) {
+		return true, false
+	}
+	k := n.key(v)
+	switch {
+	case hasTag(st, "N:"+k):
+		return true, true
+	case hasTag(st, "Z:"+k):
+		return true, false
+	case provablyNonNil(v, at.Block(), 0):
+		return true, true
+	case n.nonNil != nil && n.nonNil(v, at):
+		return true, true
+	}
+	return false, false
+}
+
+// branch handles a nil test of an error value; handled=false means the condition is something else.
+func (n nilTrack) branch(st string, br *ssa.If, idx int) (out string, handled, feasible bool) {
+	x, trueNonNil, ok := nilTestOf(br.Cond)
+	if !ok || !isErrorType(x.Type()) {
+		return st, false, true
+	}
+	nonNil := (idx == 0) == trueNonNil
+	k := n.key(x)
+	if hasTag(st, "N:"+k) && !nonNil || hasTag(st, "Z:"+k) && nonNil {
+		return st, true, false
+	}
+	return n.set(st, k, nonNil), true, true
+}
+
+// store carries knowledge into a local variable.
+func (n nilTrack) store(st string, x *ssa.Store) string {
+	al, ok := x.Addr.(*ssa.Alloc)
+	if !ok || !isErrorType(deref(al.Type())) {
+		return st
+	}
+	key := "m:" + al.Name() + "@" + fmt.Sprint(al.Parent())
+	out := delTag(delTag(st, "N:"+key), "Z:"+key)
+	if known, nonNil := n.status(st, x.Val, x); known {
+		out = n.set(out, key, nonNil)
+	}
+	return out
+}
+
+// onReturn records, at a return of an inlined helper, what the path knows
+// about the helper's error results under the key of the call's value(s), and
+// forgets what was known about the helper's own values.
+func (n nilTrack) onReturn(st string, ret *ssa.Return, call ssa.CallInstruction) string {
+	callee := ret.Parent()
+	type upd struct {
+		key    string
+		nonNil bool
+	}
+	var upds []upd
+	cv := call.Value()
+	for i, r := range ret.Results {
+		if !isErrorType(r.Type()) {
+			continue
+		}
+		known, nonNil := n.status(st, r, ret)
+		if !known || cv == nil {
+			continue
+		}
+		if len(ret.Results) == 1 {
+			upds = append(upds, upd{n.key(cv), nonNil})
+			continue
+		}
+		for _, ref := range *cv.Referrers() {
+			if ex, ok := ref.(*ssa.Extract); ok && ex.Index == i {
+				upds = append(upds, upd{n.key(ex), nonNil})
+			}
+		}
+	}
+	sfx := "@" + fmt.Sprint(callee)
+	out := ""
+	for _, t := range splitTags(st) {
+		if (strings.HasPrefix(t, "N:") || strings.HasPrefix(t, "Z:")) && strings.HasSuffix(t, sfx) {
+			continue
+		}
+		out = addTag(out, t)
+	}
+	for _, u := range upds {
+		out = n.set(out, u.key, u.nonNil)
+	}
+	return out
+}
+
+
+// extendedBody returns fn and the same-package functions it (transitively)
+// calls statically: where a piece of fn lives after a helper was extracted.
+func extendedBody(fn *ssa.Function) []*ssa.Function {
+	seen := map[*ssa.Function]bool{fn: true}
+	out := []*ssa.Function{fn}
+	for i := 0; i < len(out); i++ {
+		for _, f := range an.WithAnon(out[i]) {
+			an.Instrs(f, func(in ssa.Instruction) {
+				ci, ok := in.(ssa.CallInstruction)
+				if !ok {
+					return
+				}
+				callee := ci.Common().StaticCallee()
+				if callee == nil || len(callee.Blocks) == 0 || seen[callee] {
+					return
+				}
+				if callee.Pkg == nil || fn.Pkg == nil || callee.Pkg != fn.Pkg {
+					if callee.Parent() == nil || !seen[callee.Parent()] {
+						return
+					}
+				}
+				seen[callee] = true
+				out = append(out, callee)
+			})
+		}
+	}
+	return out
+}
+
+type valueIn struct {
+	v  ssa.Value
+	fn *ssa.Function
+}
+
+// paramSources follows v back through parameters to the arguments at the call
+// sites inside root's extended body, until values of root (or non-parameters) are reached.
+func paramSources(v ssa.Value, root *ssa.Function, depth int) []valueIn {
+	par, ok := v.(*ssa.Parameter)
+	if !ok || depth > 4 || v.Parent() == root {
+		fn := root
+		if v != nil && v.Parent() != nil {
+			fn = v.Parent()
+		}
+		return []valueIn{{v, fn}}
+	}
+	callee := par.Parent()
+	idx := -1
+	for i, p := range callee.Params {
+		if p == par {
+			idx = i
+		}
+	}
+	var out []valueIn
+	for _, f := range extendedBody(root) {
+		an.Instrs(f, func(in ssa.Instruction) {
+			ci, ok := in.(ssa.CallInstruction)
+			if !ok || ci.Common().StaticCallee() != callee || idx < 0 || idx >= len(ci.Common().Args) {
+				return
+			}
+			out = append(out, paramSources(ci.Common().Args[idx], root, depth+1)...)
+		})
+	}
+	if len(out) == 0 {
+		return []valueIn{{v, callee}}
+	}
+	return out
 }
